@@ -20,7 +20,8 @@ func init() {
 		Explanation: "Blocked-services pause schedule. Decided: (D1) validation precedes storage: both unmarshalers store a day range only after validate returned nil for that same range, validate delegates to the range checks and the whole-minute test, and the schedule's fields have no writers other than the unmarshalers, the constructors and Clone; " +
 			"(D2) weekday/field agreement: in the four (un)marshalers the element for weekday X is built from the field named X (start from start, end from end), all seven days are present, and the JSON and YAML key sets agree; (D3) the schedule is consulted for every request: blocked-service rules are added only on the 'not paused now' edge of Schedule.Contains(time.Now()) for the global and the per-client list; " +
 			"(D4) the range test is the half-open conjunction start <= x && x < end, and the range validator lets a range through only if it is the zero range or passed every one of: start < 0, end < 0, start >= end, start >= 24h, end > 24h; (D5) Contains takes weekday, date and offset from the instant converted to the schedule's own time zone. " +
-			"and the offset tested is the wall-clock reading (Clock), not time elapsed since local midnight — the structural cause of the 23/25-hour-day defect that was found and repaired. Not decided: the arithmetic equality of Contains with wall-clock containment for every instant and zone (value-level).",
+			"and the offset tested is the wall-clock reading (Clock), not time elapsed since local midnight — the structural cause of the 23/25-hour-day defect that was found and repaired; (D6) a range bound given as a JSON number of milliseconds is scaled to nanoseconds in floating point and truncated once (no flooring before the whole-minute validation, no wrapping integer multiplication). Not decided: the arithmetic equality of Contains with wall-clock containment for every instant and zone (value-level).",
+		// D6 (JSON durations scaled in floating point, truncated once) is described at c18JSONDuration.
 		RuleText:    "Typed-AST agreement between keys and selectors; comparison operators/operand roles and path guards on SSA.",
 		Assumptions: []string{"time.LoadLocation / time.Time.In behave as documented"},
 		Trusted:     commonTrusted,
@@ -33,6 +34,7 @@ func runC18(c *Ctx) {
 	c18Consult(c)
 	c18Shapes(c)
 	c18Contains(c)
+	c18JSONDuration(c)
 }
 
 func c18Validation(c *Ctx) {
@@ -652,4 +654,56 @@ func c18Contains(c *Ctx) {
 		}
 	}
 	r.Check(okIdx, "C18-D5", "range-selected-by-weekday", p.FnPos(fn), "the day range is selected by the instant's weekday", "the day range is not selected by the instant's weekday")
+}
+
+// c18JSONDuration: D6.  Range bounds arrive over the API as JSON numbers of
+// milliseconds.  The number is scaled to nanoseconds as a float and only then
+// truncated: truncating first would floor sub-millisecond fractions away
+// before the whole-minute validation sees them, and an integer multiplication
+// would wrap for huge values instead of yielding an out-of-range duration.
+func c18JSONDuration(c *Ctx) {
+	p, r := c.P, c.R
+	fn := p.Fn("(*aghhttp.JSONDuration).UnmarshalJSON")
+	if fn == nil {
+		r.Undecided("C18-D6", "JSONDuration.UnmarshalJSON", "-", "anchor not found")
+		return
+	}
+	n, ok := 0, true
+	why := ""
+	for _, b := range fn.Blocks {
+		for _, in := range b.Instrs {
+			cv, isC := in.(*ssa.Convert)
+			if !isC {
+				continue
+			}
+			from, f1 := cv.X.Type().Underlying().(*types.Basic)
+			to, f2 := cv.Type().Underlying().(*types.Basic)
+			if !f1 || !f2 || from.Info()&types.IsFloat == 0 || to.Info()&types.IsInteger == 0 {
+				continue
+			}
+			n++
+			mul, isMul := cv.X.(*ssa.BinOp)
+			if !isMul || mul.Op != token.MUL {
+				ok, why = false, "the parsed number is truncated to an integer before it is scaled to nanoseconds"
+				continue
+			}
+			_, c1 := mul.X.(*ssa.Const)
+			_, c2 := mul.Y.(*ssa.Const)
+			if !c1 && !c2 {
+				ok, why = false, "the float is not scaled by a constant before truncation"
+			}
+		}
+	}
+	// no integer multiplication of the truncated value afterwards
+	for _, b := range fn.Blocks {
+		for _, in := range b.Instrs {
+			if bo, isB := in.(*ssa.BinOp); isB && bo.Op == token.MUL {
+				if bt, isBasic := bo.Type().Underlying().(*types.Basic); isBasic && bt.Info()&types.IsInteger != 0 {
+					ok, why = false, "the duration is scaled with an integer multiplication, which wraps around for large numbers"
+				}
+			}
+		}
+	}
+	r.Check(n == 1 && ok, "C18-D6", "json-duration:scaled-before-truncation", p.FnPos(fn),
+		"a JSON duration is scaled to nanoseconds in floating point and truncated once", "JSON durations lose precision or wrap before validation: "+why+" (ranges that are not whole minutes, or far longer than a day, pass the validator)")
 }
